@@ -112,6 +112,62 @@ def make_sign_run(orth):
     return run
 
 
+def make_cap_run(corner):
+    """capBpYlowXpoint (option cap_Bp_ylow_xpoint) on a region and on its image under psi -> -psi
+    (every Bp negated, bpsign negated): the capped y-face field of the image is the negative of the
+    capped field -- the cap acts on |Bp| (F22: it compared signed values, so it did nothing at all
+    when Bp < 0 and the two grids differed in |Bpxy_ylow|, g11, J, ... next to the X-point)."""
+    from hypnotoad.core.mesh import MeshRegion
+
+    nx, ny = 2, 2
+    at_start, outer = corner
+
+    def one(ctx, sgn, vals):
+        r = mk.skeleton_region(True)
+        r.nx, r.ny = nx, ny
+        r.radialIndex = 0
+        r.bpsign = vals["s"] * sgn
+        r.Bpxy = mk.mla_cls()(nx, ny)
+        r.Bpxy.centre[...] = numpy.array(vals["c"], dtype=object) * sgn
+        r.Bpxy.ylow[...] = numpy.array(vals["y"], dtype=object) * sgn
+        nb = types.SimpleNamespace(Bpxy=mk.mla_cls()(nx, ny))
+        nb.Bpxy.centre[...] = numpy.array(vals["n"], dtype=object) * sgn
+        xp = object()
+        pins = [None, None]
+        pins[1 if outer else 0] = xp
+        r.equilibriumRegion = types.SimpleNamespace(xPointsAtStart=pins if at_start else [None, None], xPointsAtEnd=[None, None] if at_start else pins)
+        r.getNeighbour = lambda face: nb
+        MeshRegion.capBpYlowXpoint(r)
+        return r
+
+    def run(ctx):
+        s = ctx.real("bpsign")
+        ctx.assume(Or(s == 1, s == -1))
+        mkv = lambda nm, shape: [[ctx.real("%s_%d_%d" % (nm, i, j)) for j in range(shape[1])] for i in range(shape[0])]
+        vals = dict(s=s, c=mkv("Bp_centre", (nx, ny)), y=mkv("Bp_ylow", (nx, ny + 1)), n=mkv("Bp_neighbour", (nx, ny)))
+        for k in ("c", "y", "n"):
+            for row in vals[k]:
+                for v in row:
+                    ctx.assume(s * v >= 0 if k == "y" else s * v > 0)  # Bp has the sign bpsign (geometry1), 0 allowed at the X-point face
+        before = [list(r_) for r_ in vals["y"]]
+        r0 = one(ctx, 1, vals)
+        r1 = one(ctx, -1, vals)
+        with spec_mode():
+            a, b = r0.Bpxy.ylow, r1.Bpxy.ylow
+            ctx.oblige(And(*[b[i, j] == -a[i, j] for i in range(nx) for j in range(ny + 1)]), "capped Bpxy.ylow of the psi -> -psi image = minus the capped Bpxy.ylow")
+            ctx.oblige(And(*[s * a[i, j] >= s * before[i][j] for i in range(nx) for j in range(ny + 1)]), "the cap never lowers |Bp|")
+            j = 0 if at_start else ny
+            i0 = nx - 1 if outer else 0
+            jc = 0 if at_start else ny - 1
+            m0, m1 = s * vals["c"][i0][jc], s * vals["n"][i0][ny - 1 if at_start else 0]
+            low = ite(m0 <= m1, m0, m1)
+            ctx.oblige(Or(a[i0, j] == before[i0][j], And(s * before[i0][j] < low, s * a[i0, j] == low)), "the face at the X-point is unchanged or raised in magnitude to min |Bp| of the two adjacent cell centres")
+            ctx.oblige(And(*[a[i, jj] == before[i][jj] for i in range(nx) for jj in range(ny + 1) if jj != j]), "only faces at the X-point end are touched")
+            ctx.oblige(And(*[b[i, jj] == a[i, jj] for i in range(nx) for jj in range(ny + 1)]), "twin: image identical", kind="must-fail")
+
+    return run
+
+
 def build(S):
     mk.silence_pyplot()
     S.under_contract(FN_SN, "hypnotoad.cases.tokamak:TokamakEquilibrium.describeDoubleNull", "hypnotoad.cases.tokamak:TokamakEquilibrium.createRegionObjects", "hypnotoad.core.mesh:MeshRegion.calcMetric", "hypnotoad.core.mesh:BoutMesh.writeGridfile")
@@ -132,6 +188,9 @@ def build(S):
         S.under_contract(C10.FN_SQRT)
         C10.add_mirror(S)
         S.under_contract(C10.E_ + "combineSfuncs")
+        S.under_contract("hypnotoad.core.mesh:MeshRegion.capBpYlowXpoint")
+        for corner in ((True, False), (True, True), (False, False), (False, True)):
+            S.contract("capBpYlowXpoint[psi -> -psi, X-point at the %s, %s edge]" % ("start" if corner[0] else "end", "outer" if corner[1] else "inner"), "hypnotoad.core.mesh:MeshRegion.capBpYlowXpoint", make_cap_run(corner), shape="nx=2, ny=2, symbolic fields of either sign", max_paths=400)
         # up-down mirror at the option level: each leg takes the target options named after IT (the
         # mirrored configuration sets target_*_upper_* where the original sets target_*_lower_*)
         S.under_contract(C10.E_ + "getSpacings", C10.E_ + "getTargetParameter")
